@@ -3,13 +3,11 @@
 
 namespace simw {
 
-// twin of y on x's grid object (only when the grids are logically equal)
-template <class X, class Y>
-static Y rebuild_on(const X &x, const Y &y) {
+// a pristine object with the same window and coefficients on grid object g
+template <class S>
+static S fresh_on_grid(const S &s, const Grid &g) {
   sim::Exempt e;
-  const auto &ys = y.getSupport();
-  return Y(Support(x.getSupport().getGrid(), ys.getStartIndex(), ys.getEndIndex()),
-           y.getCoefficients());
+  return S(Support(g, s.getSupport().getStartIndex(), s.getSupport().getEndIndex()), s.getCoefficients());
 }
 
 template <class R>
@@ -80,16 +78,21 @@ bool exec_arith(ExecCtx &c) {
               }
 #endif
               if (distinct) {
-                // C08: equal grids in distinct objects give the same result as a shared instance
+                // C08: equal grids in distinct objects are the same grid. Compared on
+                // pristine copies of both operands, so that nothing but the identity of
+                // the second grid object differs between the two computations.
                 sim::Exempt e;
                 try {
-                  Y y2 = rebuild_on(x, y);
-                  uint64_t h2;
-                  if (op.kind == OP_P_ADD) h2 = hash_spline_wc(x + y2);
-                  else if (op.kind == OP_P_SUB) h2 = hash_spline_wc(x - y2);
-                  else h2 = hash_spline_wc(x * y2);
+                  const Grid &gx = x.getSupport().getGrid();
+                  X xf = fresh_on_grid(x, gx);
+                  Y yo = fresh_on_grid(y, y.getSupport().getGrid());
+                  Y ys = fresh_on_grid(y, gx);
+                  uint64_t h1, h2;
+                  if (op.kind == OP_P_ADD) { h1 = hash_spline_wc(xf + yo); h2 = hash_spline_wc(xf + ys); }
+                  else if (op.kind == OP_P_SUB) { h1 = hash_spline_wc(xf - yo); h2 = hash_spline_wc(xf - ys); }
+                  else { h1 = hash_spline_wc(xf * yo); h2 = hash_spline_wc(xf * ys); }
                   probe(PR_TWIN_COMPARED);
-                  if (h2 != hash_spline_wc(*res))
+                  if (h1 != h2)
                     add_violation(c, "C08", "equal-grid-result-differs",
                                   std::string(site) + ": result with distinct equal grids differs from shared instance", site);
                 } catch (const std::exception &) {
@@ -136,15 +139,16 @@ bool exec_arith(ExecCtx &c) {
               Fn expect = op.kind == OP_P_IADD ? fn_add(fn_of(x), fn_of(y))
                                                : fn_add(fn_of(x), fn_scale(fn_of(y), Val(-1)));
 #endif
-              uint64_t twin = 0;
-              bool have_twin = false;
+              bool twin_differs = false, have_twin = false;
               if (distinct && (const void *)&x != (const void *)&y) {
                 sim::Exempt e;
                 try {
-                  Y y2 = rebuild_on(x, y);
-                  X x2 = x;
-                  if (op.kind == OP_P_IADD) x2 += y2; else x2 -= y2;
-                  twin = hash_spline_wc(x2);
+                  const Grid &gx = x.getSupport().getGrid();
+                  X x1 = fresh_on_grid(x, gx), x2 = fresh_on_grid(x, gx);
+                  Y yo = fresh_on_grid(y, y.getSupport().getGrid());
+                  Y ys = fresh_on_grid(y, gx);
+                  if (op.kind == OP_P_IADD) { x1 += yo; x2 += ys; } else { x1 -= yo; x2 -= ys; }
+                  twin_differs = hash_spline_wc(x1) != hash_spline_wc(x2);
                   have_twin = true;
                 } catch (const std::exception &) {
                 }
@@ -164,7 +168,7 @@ bool exec_arith(ExecCtx &c) {
 #endif
                 if (have_twin) {
                   probe(PR_TWIN_COMPARED);
-                  if (twin != hash_spline_wc(x))
+                  if (twin_differs)
                     add_violation(c, "C08", "equal-grid-result-differs",
                                   std::string(site) + ": result with distinct equal grids differs from shared instance", site);
                 }
@@ -320,11 +324,14 @@ bool exec_arith(ExecCtx &c) {
               if (!differ && distinct && !mismatch) {
                 sim::Exempt e;
                 try {
-                  std::vector<S> tw;
-                  tw.push_back(sv[0]);
-                  for (size_t i = 1; i < sv.size(); i++) tw.push_back(rebuild_on(sv[0], sv[i]));
+                  std::vector<S> own, shared;
+                  const Grid &g0 = sv[0].getSupport().getGrid();
+                  for (size_t i = 0; i < sv.size(); i++) {
+                    own.push_back(fresh_on_grid(sv[i], sv[i].getSupport().getGrid()));
+                    shared.push_back(fresh_on_grid(sv[i], g0));
+                  }
                   probe(PR_TWIN_COMPARED);
-                  if (hash_spline_wc(bspline::linearCombination(cs, tw)) != hash_spline_wc(*res))
+                  if (hash_spline_wc(bspline::linearCombination(cs, own)) != hash_spline_wc(bspline::linearCombination(cs, shared)))
                     add_violation(c, "C08", "equal-grid-result-differs", "linearCombination", "linearCombination");
                 } catch (const std::exception &) {
                 }
